@@ -563,6 +563,12 @@ def r04_5(ctx) -> None:
         ctx.fail("R04.5", u, "tee_peer", "tee_peer has no finally block: a closed or failing child never removes "
                  "its buffer and the source is never closed")
         return
+    # the shared source is closed nowhere but in that clean-up (where it is conditioned on "no buffer remains")
+    for n in cfg.nodes:
+        if not any(k == "finally" for (k, _a) in n.regions) and (
+                ownership._is_aclose_await(ctx, u, n, src) or ownership._is_close_helper_await(ctx, u, n, src)):
+            ctx.fail("R04.5", u, n, "the shared source is closed outside the clean-up that tests whether another child still needs "
+                     "it: a child that fails or is cancelled here takes the source away from its live siblings", node=n)
     for tag in ("", "exc"):
         nodes = [n for n in cfg.nodes if n.tag == tag and any(k == "finally" for (k, _a) in n.regions)]
         if not nodes:
